@@ -38,8 +38,14 @@ def ofHex (s : String) : Option Bytes :=
   | 'x' :: rest => ofHexChars rest
   | _ => none
 
+/-- decimal digits, most significant first (0 is "0"); structural on the fuel so that the kernel
+    can compute and reason about it -/
+def decDigits : (fuel : Nat) → Nat → Bytes
+  | 0, _ => []
+  | f + 1, v => if v < 10 then [(48 + v).toUInt8] else decDigits f (v / 10) ++ [(48 + v % 10).toUInt8]
+
 /-- decimal rendering of an integer as bytes (Go `strconv.AppendInt(_, v, 10)`). -/
-def natDigits (n : Nat) : Bytes := (toString n).toUTF8.toList
+def natDigits (n : Nat) : Bytes := decDigits (n + 1) n
 
 def intDigits (i : Int) : Bytes :=
   if i < 0 then 45 :: natDigits i.natAbs else natDigits i.toNat
